@@ -105,7 +105,7 @@ Other == Track("aac", <<187, 128>>,
 
 -----------------------------------------------------------------------------
 VARIABLES tb,       \* the table set under test (track 1)
-          place,    \* chunk placement: "asc" | "rev" | "inter" (with the second track)
+          place,    \* chunk placement: "asc" | "rev" | "inter" (with the second track) | "eof"
           k,        \* next sample id of the session
           out       \* the rendered file (set by the last step; rendering is done inside the action
                     \* because TLC caches intermediate values only while it evaluates actions)
@@ -113,18 +113,18 @@ vars == <<tb, place, k, out>>
 
 TheMovie ==
   LET trks == IF place = "inter" THEN <<Track("avc", <<3, 232>>, tb), Other>> ELSE <<Track("avc", <<3, 232>>, tb)>>
-      ord  == CASE place = "asc" -> AscOrder(trks) [] place = "rev" -> Rev(AscOrder(trks))
+      ord  == CASE place \in {"asc", "eof"} -> AscOrder(trks) [] place = "rev" -> Rev(AscOrder(trks))
                 [] place = "inter" -> InterOrder(trks)
   IN [mts |-> <<3, 232>>, tracks |-> trks, order |-> ord, extra |-> <<>>]
 
 Init == /\ tb \in AllTables
-        /\ place \in {"asc", "rev", "inter"}
+        /\ place \in {"asc", "rev", "inter", "eof"}    \* "eof": the media data box is last and extends to the end of the file (size field 0)
         /\ k = 0 /\ out = <<>>
 
 \* one reader call; the file is immutable
 Step == /\ k <= N(tb) + 2
         /\ k' = k + 1
-        /\ out' = IF k = N(tb) + 2 THEN RenderPlain(TheMovie, <<>>) ELSE out
+        /\ out' = IF k = N(tb) + 2 THEN RenderPlain(TheMovie, IF place = "eof" THEN <<[op |-> "eof", path |-> <<3>>]>> ELSE <<>>) ELSE out
         /\ UNCHANGED <<tb, place>>
 Next == Step
 Spec == Init /\ [][Next]_vars
